@@ -147,7 +147,7 @@ class World:
         top = modname.split(".")[0]
         # only the `timeslot` dependency is verified from its installed source; every other third-party module
         # (iso8601, peewee, tomlkit, ...) is external: assumed contracts, never parsed
-        roots = (VERIF,) if top == "contracts" else ((self.repo, self.site) if top in SITE_VERIFIED else (self.repo,))
+        roots = (VERIF,) if top in ("contracts", "selfcases") else ((self.repo, self.site) if top in SITE_VERIFIED else (self.repo,))
         for root in roots:
             for cand in (os.path.join(root, rel + ".py"), os.path.join(root, rel, "__init__.py")):
                 if os.path.isfile(cand):
